@@ -218,8 +218,8 @@ func prefilterFunc(pattern string) func(string) bool {
 		// A literal is the prefix/suffix constraint only when it survived
 		// filterShort (len >= 2), meaning it IS the first/last literal in the
 		// pattern and not replaced by a longer one that appeared elsewhere.
-		usePrefix := hasBeginAnchor(re) && len(origFirst) >= 2
-		useSuffix := hasEndAnchor(re) && len(origLast) >= 2
+		usePrefix := hasBeginAnchor(re) && len(origFirst) >= 2 && strings.EqualFold(literalAtBegin(re), origFirst)
+		useSuffix := hasEndAnchor(re) && len(origLast) >= 2 && strings.EqualFold(literalAtEnd(re), origLast)
 		if !usePrefix && !useSuffix {
 			// No anchor: sort longest-first for best early exit.
 			slices.SortFunc(filtered, func(a, b string) int { return len(b) - len(a) })
@@ -1019,6 +1019,61 @@ func hasEndAnchor(re *syntax.Regexp) bool {
 	return false
 }
 
+// literalAtBegin returns the literal that directly follows the \A anchor of re, or "" when
+// anything else (a class, a repetition, an optional group, ...) sits between the anchor and
+// the first literal. Only in the former case is the first extracted literal a prefix of every
+// match; otherwise it may start anywhere and must be searched with Contains.
+func literalAtBegin(re *syntax.Regexp) string {
+	switch re.Op {
+	case syntax.OpCapture:
+		return literalAtBegin(re.Sub[0])
+	case syntax.OpConcat:
+		if len(re.Sub) >= 2 && re.Sub[0].Op == syntax.OpBeginText {
+			return edgeLiteral(re.Sub[1], false)
+		}
+		if len(re.Sub) > 0 {
+			return literalAtBegin(re.Sub[0])
+		}
+	}
+	return ""
+}
+
+// literalAtEnd is the mirror image of literalAtBegin for the \z anchor.
+func literalAtEnd(re *syntax.Regexp) string {
+	switch re.Op {
+	case syntax.OpCapture:
+		return literalAtEnd(re.Sub[0])
+	case syntax.OpConcat:
+		if n := len(re.Sub); n >= 2 && re.Sub[n-1].Op == syntax.OpEndText {
+			return edgeLiteral(re.Sub[n-2], true)
+		}
+		if n := len(re.Sub); n > 0 {
+			return literalAtEnd(re.Sub[n-1])
+		}
+	}
+	return ""
+}
+
+// edgeLiteral returns the literal re starts with (or, when last is set, ends with) if re is a
+// literal, possibly wrapped in capture groups or leading/trailing a concatenation.
+func edgeLiteral(re *syntax.Regexp, last bool) string {
+	switch re.Op {
+	case syntax.OpLiteral:
+		return string(re.Rune)
+	case syntax.OpCapture:
+		return edgeLiteral(re.Sub[0], last)
+	case syntax.OpConcat:
+		if len(re.Sub) == 0 {
+			return ""
+		}
+		if last {
+			return edgeLiteral(re.Sub[len(re.Sub)-1], last)
+		}
+		return edgeLiteral(re.Sub[0], last)
+	}
+	return ""
+}
+
 // hasPrefixFoldASCII reports whether s begins with prefix (ASCII case-insensitive).
 // prefix must already be lowercase.
 func hasPrefixFoldASCII(s, prefix string) bool {
@@ -1124,8 +1179,8 @@ func buildCombinedPF(v combinedRequired, ci bool, re *syntax.Regexp) func(string
 
 	var allPF func(string) bool
 	if len(filteredAll) > 0 {
-		usePrefix := hasBeginAnchor(re) && len(origFirst) >= 2
-		useSuffix := hasEndAnchor(re) && len(origLast) >= 2
+		usePrefix := hasBeginAnchor(re) && len(origFirst) >= 2 && strings.EqualFold(literalAtBegin(re), origFirst)
+		useSuffix := hasEndAnchor(re) && len(origLast) >= 2 && strings.EqualFold(literalAtEnd(re), origLast)
 		if !usePrefix && !useSuffix {
 			slices.SortFunc(filteredAll, func(a, b string) int { return len(b) - len(a) })
 		}
